@@ -562,6 +562,11 @@ def run(chk):
         k = int(rng.integers(1, 9))
         N = int(rng.integers(k + 2, 41))
         W = float_sample(N, dx + dy + dz)
+        if t % 3 == 1:
+            # the sample sits far from the origin (offset 1e2 .. 1e4 x its spread): the signed sum is about neighbour DISTANCES,
+            # which the coordinates' magnitude must not degrade (translation invariance of each entropy)
+            W = W + rng.normal(size=(1, dx + dy + dz)) * float(np.abs(W - W.mean(axis=0)).max()) * 10.0 ** rng.uniform(2, 4)
+            chk.count("float.sum.large_offset")
         Xf, Yf, Zf = W[:, :dx], W[:, dx:dx + dy], W[:, dx + dy:]
         via = str(rng.choice(["direct", "dispatcher", "default-k"]))
 
